@@ -49,7 +49,9 @@ LEVEL = "proof"
 EXPLANATION = (
     "getrandbytes/getrandstr proved (loop invariants, all counts, all draws) to return exactly the base-256 / "
     "base-L digits of ONE draw from the rng; the digit step map is proved a bijection, hence a uniform draw gives a "
-    "uniform output. Salt generators are proved to delegate to these helpers with the declared size/alphabet."
+    "uniform output. Salt generators are proved to delegate to these helpers with the declared size/alphabet. "
+    "pwd._ensure_unique is proved (1-3 symbolic elements) to refuse a source with duplicate elements whatever its validation cache "
+    "holds and to record only duplicate-free sources."
 )
 ASSUMPTIONS = [
     "rng.getrandbits(k) is uniform on [0, 2^k), rng.randrange(a, b) uniform on [a, b) (random.Random / SystemRandom contract)",
